@@ -309,4 +309,4 @@ def run(acc, tier):
         engine.pmap(acc, shard_generated, extra=(8, 4, 8))
     else:
         engine.pmap(acc, shard_exhaustive, extra=(9,))
-        engine.pmap(acc, shard_generated, extra=(60, 5, 9))
+        engine.pmap(acc, shard_generated, extra=(150, 5, 9))
